@@ -103,7 +103,7 @@ impl Profile for Remotes {
         out.extend(dispatch::check(rec, &all_ops(plan), reg, &DWhich { c02: true, c04: true }, cells));
         // every call in these worlds is built by a helper: none of them may take the chain down
         for op in &rec.ops {
-            if let crate::world::Outcome::Panic(p) = &op.outcome {
+            if let Some(p) = op.outcome.foreign_panic() {
                 out.push(Finding::new("C10", "c10.panic", op.idx, format!("an operation made of helper-built calls panicked: {p}")));
             }
         }
@@ -174,7 +174,9 @@ impl Profile for StoredHandles {
                     sg.fail_pm = 0;
                     sg.max_depth = 0;
                     sg.queries = false;
-                    let args = sg.args_for(rng, ne.spec.cid, h, 5);
+                    // the new code may write and re-write handles while it migrates
+                    sg.remote_pm = *rng.pick(&[0, 700]);
+                    let args = sg.args_for(rng, ne.spec.cid, h, 0);
                     nonce = sg.nonce;
                     ops.push(Op::Migrate { target: c.addr.clone(), sender: accounts[3].clone(), code, msg: Doc::json(&doc_for(h, &args)), intent: Some(Intent { hid: h.id(), args: Value::Object(args), cid: String::new() }) });
                     contracts[ci].cid = ne.spec.cid.to_string();
@@ -184,7 +186,9 @@ impl Profile for StoredHandles {
                     // bytes left behind by an older program that stored a plain struct
                     let who = rng.pick(&contracts).addr.clone();
                     // also with spellings a legacy writer may have used: escapes, spacing
-                    let text = match rng.below(4) {
+                    let text = match rng.below(5) {
+                        // (a record with more members than a handle has: a reader ignores them)
+                        4 => format!("{{\"label\":\"main\",\"addr\":\"{}\",\"code_id\":4}}", who),
                         0 => format!("{{ \"addr\" : \"{}\" }}", who),
                         1 => format!("{{\"addr\":\"\\u0063{}\"}}", &who[1..]),
                         _ => format!("{{\"addr\":\"{}\"}}", who),
